@@ -279,6 +279,116 @@ def rules(ctx, tier):
                 "%s at %s can panic on a damaged segment (%s)" % (what, site_where(site), why), site_where(site))
     r.ok("scan", None, "reader and iterator bodies scanned for panic sources (%d found)" % len(pan))
     out.append(r.finish())
+
+    out.append(end_of_log_rule(ctx, "R6"))
+    return out
+
+
+def end_of_log_rule(ctx, rid):
+    """The record reader may declare "no more records" only where the writer can have stopped: at end of file on a
+    header boundary, or at a header field that is zero (sentinel / never written).  Any other value test that ends
+    the log swallows records the writer is allowed to produce - unless the writer refuses the same values."""
+    prog = ctx.prog
+    must = ctx.must(None)
+    r = Rule(rid, "the reader ends the log only where the writer can have ended it: end of file at a header boundary or a "
+                  "zero header field; no other test on a decoded value makes it report 'no more records'",
+             "a record the writer may legitimately produce (a large one, say) is taken for the end of the log: it and "
+             "everything after it in the segment silently disappear at the next open")
+    readers = entry_readers(ctx)
+    wbounds = None
+    for p in sorted(readers):
+        b = prog.bodies[p]
+        sl = Slicer(ctx.world, b)
+        rf = must.rf(b)
+        # Ok exits that carry no record: `_0 = Ok(<no aggregate of a crate type>)`
+        ends = []
+        for bb in b.normal_blocks():
+            for st in b.stmts(bb):
+                if st["k"] == "assign" and st["lhs"]["l"] == 0 and not st["lhs"]["p"] and st["rv"]["k"] == "agg" \
+                        and st["rv"].get("vn") == "Ok" and st["rv"]["ops"]:
+                    lv = sl.leaves_of_operand(st["rv"]["ops"][0])
+                    if not any(l[0] == "agg" and l[1] in prog.adts for l in lv):
+                        ends.append((bb, st.get("line") or b.blocks[bb]["span"]["line"]))
+        r.check(bool(ends), "end-exits", b, "%d 'no more records' exit(s) in %s" % (len(ends), p),
+                "cannot find the 'no more records' exits of %s" % p)
+        for (x, xline) in ends:
+            # walk back to the deciding branches (branches of logging macros are transparent)
+            reasons = []
+            seen = set()
+            work = [x]
+            while work:
+                y = work.pop()
+                for pr in b.preds(y):
+                    if (pr, y) in seen:
+                        continue
+                    seen.add((pr, y))
+                    t = b.blocks[pr]["term"]
+                    sp = b.blocks[pr]["span"]
+                    if t["k"] == "switch" and not (sp.get("exp") and "tracing" in (sp.get("outer") or "")):
+                        reasons.append((pr, y))
+                    else:
+                        work.append(pr)
+            where = "%s:%d" % (b.file, xline)
+            if not reasons:
+                r.bad("end-unconditional", b, "the 'no more records' exit at %s is not decided by any test" % where, where)
+            for (sw, tgt) in reasons:
+                c = cfgutil.switch_condition(b, sw)
+                kind = c[0] if c else "?"
+                why = None
+                if kind == "cmp":
+                    la, lb = sl.leaves_of_operand(c[2]), sl.leaves_of_operand(c[3])
+                    consts = [l[1] for l in (la | lb) if l[0] == "const"]
+                    io_kind = any(l[0] == "call" and (l[1] or "").endswith("io::Error::kind") for l in la | lb)
+                    if io_kind and c[1] in ("Eq", "Ne"):
+                        why = "end of file while reading the header"
+                    elif c[1] in ("Eq", "Ne") and consts and all(v == 0 for v in consts):
+                        why = "a header field is zero"
+                    else:
+                        if wbounds is None:
+                            wbounds = _writer_bounds(ctx)
+                        if consts and set(consts) <= wbounds:
+                            why = "the writer refuses the same values"
+                elif kind in ("bool", "const", "other", "call", "discr"):
+                    t = b.blocks[sw]["term"]
+                    pl = place_of(t["discr"])
+                    dty = prog.types[b.locals[pl["l"]]] if pl is not None and not pl["p"] else {}
+                    if dty.get("k") == "prim" and dty.get("s") != "bool":
+                        # switchInt(value) [0: ...]: a comparison with the listed constants
+                        vals = [v for v, tg in t["targets"] if tg == tgt]
+                        if vals and all(v == 0 for v in vals):
+                            why = "a header field is zero"
+                    elif kind == "discr":
+                        why = "the header read reported an error that is then identified as end of file"
+                    elif kind == "call" and (c[1] or "").split("::")[-1] in ("is_empty",):
+                        why = "nothing left to read"
+                r.check(why is not None, "end-of-log:%s" % kind, b,
+                        "'no more records' at %s: %s" % (where, why),
+                        "%s reports 'no more records' at %s because of a test (%s at %s:%d) that is neither end-of-file "
+                        "nor a zero header field, and the writer accepts such records: a valid record ends the log" % (
+                            p, where, kind, b.file, b.blocks[sw]["span"]["line"]), where)
+    r.need(3, "end-of-log exits of the record reader")
+    return r.finish()
+
+
+def _writer_bounds(ctx):
+    """Constants the record writer compares against on the way to an Err return."""
+    prog = ctx.prog
+    must = ctx.must(None)
+    out = set()
+    for b in prog.bodies.values():
+        evs = sem_set(e for e in ctx.may.all_events(b.path) if ctx._concrete(e))
+        if "WAL_WRITE" not in evs:
+            continue
+        rf = must.rf(b)
+        if not any(k == "err" for k in rf.forwarded.values()):
+            continue
+        sl = Slicer(ctx.world, b)
+        for sw in b.normal_blocks():
+            c = cfgutil.switch_condition(b, sw)
+            if c and c[0] == "cmp" and c[1] not in ("Eq", "Ne"):
+                for l in sl.leaves_of_operand(c[2]) | sl.leaves_of_operand(c[3]):
+                    if l[0] == "const":
+                        out.add(l[1])
     return out
 
 
